@@ -4,7 +4,7 @@ Invariant I4: `agents` is an insertion-ordered map id -> agent, one per id, equa
 not yet removed agents; in spatial worlds every resident has exactly one PositionComponent, non-residents none.
 """
 import vf.hx as hx
-from vf.spec import X
+from vf.spec import X, K
 from ECAgent.Core import (Model, Agent, Component, Environment, SystemManager, DuplicateAgentError,
                           AgentNotFoundError)
 import ECAgent.Environments as Env
@@ -256,6 +256,11 @@ def spatial_bounds(w: int, h: int, d: int, x: int, y: int, z: int, c0: bool, cn:
     return hx.end(_agree(env, ref + [new], ["i0", "new", "ghost"]) is True)
 
 
+def k_spatial_bounds_fp(ctx):
+    from vf import kq_spatial
+    return kq_spatial.place_fp(ctx)
+
+
 def _pool(m):
     a = [Agent("a", m), Agent("b", m), Agent("c", m), Agent("a", m)]
     a[1].add_component(T1(a[1], m))
@@ -387,4 +392,6 @@ def obligations(tier):
         X("history", history, parts=_hist_parts(k, ["plain"]) + _hist_parts(k if tier != "quick" else 2, ["space"]),
           labels=("added", "add_rejected", "removed", "remove_rejected", "looked_up"), labels_for=_hist_labels,
           timeout=300, group=3, encoded=senc, bounds={"history": "<= %d operations" % k}),
+        K("spatial_bounds_fp", k_spatial_bounds_fp, timeout=300, encoded=(Env.SpaceWorld.add_agent,),
+          bounds={"doubles": "all finite positions; extents 0 or >= 1 (continuous world)"}),
     ]
